@@ -56,7 +56,7 @@ def with_comments(o, marks):
 def variants(ctx):
     rnd = ctx.rng("mark")
     out = []   # (lang, original text, variant text, removed names+starts, kind)
-    for (lang, _text, o) in scan_streams.canonical(ctx, ctx.pick(120, 2500), "c17"):
+    for (lang, _text, o) in scan_streams.canonical(ctx, ctx.pick(120, 2500), "c17", stubs=True):
         orig = with_comments(o, {})
         ind = independent(o)
         if not ind:
